@@ -311,8 +311,7 @@ def join_exact(mult, var, prev, cur):
     qlen = min(abs(cur[4] - cur[1]), abs(prev[4] - prev[1]))
     rd = cur[0] - prev[3]
     rlen = min(cur[3] - cur[0], prev[3] - prev[0])
-    reverse = cur[2] > cur[5]
-    qd = (prev[4] - cur[1]) if reverse else (cur[1] - prev[4])
+    qd = cur[1] - prev[4]          # same sign on both strands (query coordinates of '-' are mirrored)
     if min(rlen + 2 * rd, qlen + 2 * qd) < 0:
         return None
     s, a, d = rd + qd, abs(rd) + abs(qd), rd - qd
@@ -338,7 +337,7 @@ def oracle_join(line, out):
     if v > 0:
         return f"positive join score {v}"
     rd = cur[0] - prev[3]
-    qd = (prev[4] - cur[1]) if cur[2] > cur[5] else (cur[1] - prev[4])
+    qd = cur[1] - prev[4]
     if rd == 0 and qd == 0 and v != 0:
         return f"contiguous join scores {v}, not 0"
     if v != want:
